@@ -27,10 +27,23 @@ RootSets == IF Level >= 2 THEN {<<1, 0>>, <<2, 1>>, <<4, 3>>} ELSE {<<1, 0>>, <<
 Isks == IF Level >= 2 THEN {<<FALSE, 0>>, <<TRUE, 0>>, <<TRUE, 4>>} ELSE {<<FALSE, 0>>, <<TRUE, 4>>}
 Encs == {<<FALSE, 128, 0>>, <<TRUE, 128, 1>>, <<TRUE, 256, 3>>}
 Descs == IF Level >= 2 THEN {[i \in 1..5 |-> 64 + i], [i \in 1..17 |-> 64 + i]} ELSE {[i \in 1..17 |-> 64 + i]}
-Inputs == {[curve |-> cv, nkeys |-> rs[1], used |-> rs[2], isk |-> ik[1], iskCurve |-> cv, udLen |-> ik[2], udSha |-> "u",
-            constraints |-> <<0, 5>>, pckBits |-> en[2], rights |-> en[3], enc |-> en[1], nxp |-> FALSE, flags |-> B, fw |-> A,
-            ts |-> <<1, 2, 3, 4>>, desc |-> ds, cmds |-> cs, waive |-> <<>>]
+Inp(cv, rs, ik, en, ds, cs, rk, ikc) ==
+  [curve |-> cv, nkeys |-> rs[1], used |-> rs[2], isk |-> ik[1], iskCurve |-> cv, udLen |-> ik[2], udSha |-> "u",
+   constraints |-> <<0, 5>>, pckBits |-> en[2], rights |-> en[3], enc |-> en[1], nxp |-> FALSE, flags |-> B, fw |-> A,
+   ts |-> <<1, 2, 3, 4>>, desc |-> ds, cmds |-> cs, waive |-> <<>>, rk |-> rk, ik |-> ikc]
+AllFull(n) == [i \in 1..n |-> "full"] \o <<>>
+\* value classes of the keys: one key of the set has a short coordinate (the used one / another one; level 2: any position)
+OneShort(n, p, c) == [i \in 1..n |-> IF i = p THEN c ELSE "full"] \o <<>>
+ShortAt(rs) == IF Level >= 2 THEN 1..rs[1] ELSE {rs[2] + 1, ((rs[2] + 1) % rs[1]) + 1}
+KeyVecs(rs) == {AllFull(rs[1])} \cup {OneShort(rs[1], p, c) : p \in ShortAt(rs), c \in ShortClasses}
+                \cup (IF Level >= 2 THEN {[i \in 1..rs[1] |-> c] \o <<>> : c \in ShortClasses} ELSE {})
+IskKeys == {<<<<FALSE, 0>>, "full">>} \cup {<<<<TRUE, 4>>, c>> : c \in KeyClasses}
+LongDesc == [i \in 1..17 |-> 64 + i]
+KeyInputs == UNION {{Inp(cv, rs, ik[1], <<TRUE, 256, 3>>, LongDesc, <<Cm(3, A, Z, Z, Z, Z, 0)>>, rk, ik[2])
+                     : cv \in {32, 48}, ik \in IskKeys, rk \in KeyVecs(rs)} : rs \in RootSets}
+Inputs == {Inp(cv, rs, ik, en, ds, cs, AllFull(rs[1]), "full")
            : cv \in {32, 48}, rs \in RootSets, ik \in Isks, en \in Encs, ds \in Descs, cs \in CmdSeqs}
+          \cup KeyInputs
 
 Init == \E c \in Inputs : \E m \in Mistakes \cup {"none"} : RInit(c) /\ evs = <<>> /\ k = 0 /\ mut = m /\ clean = FALSE
 \* the file is built (by a worker, not by the single-threaded enumeration of initial states)
@@ -60,6 +73,9 @@ Next == Build \/ DoParseHeader \/ DoHeaderFields \/ DoLayout \/ DoCertHeader \/ 
 \* every mistake of the menu changes something for at least one input (else it would be modelled as a no-op)
 Rich == {c \in Inputs : c.enc /\ c.isk /\ c.rights = 3 /\ c.nkeys = 4 /\ Len(c.desc) = 17}
 ASSUME \A m \in Mistakes : \E c \in Rich : Events(c, m) # Events(c, "none")
+\* the key-class mistake is effective exactly on root sets of more than one key that hold a key with a short coordinate
+ASSUME \A c \in Inputs : (Events(c, "root_key_hash_over_minimal_numbers") # Events(c, "none"))
+                           <=> (c.nkeys > 1 /\ \E i \in 1..c.nkeys : c.rk[i] \in ShortClasses)
 Spec == Init /\ [][Next]_vars
 
 Sound == st = "Accepted" => clean
